@@ -640,8 +640,14 @@ class BaseOrchestrator(ABC):
         """
         while missing_invocations > 0:
             if invocation_id := self.app.broker.retrieve_invocation():
-                if invocation_id not in blocking_invocation_ids:
-                    invocation_status = self.get_invocation_status(invocation_id)
+                invocation_status = self.get_invocation_status(invocation_id)
+                # A message for an invocation already claimed in this poll through the
+                # blocking-priority path is a leftover duplicate, unless the invocation has
+                # meanwhile been released and queued again (e.g. it failed and awaits a retry)
+                if (
+                    invocation_id not in blocking_invocation_ids
+                    or invocation_status.is_available_for_run()
+                ):
                     if invocation_status.is_available_for_run():
                         invocation = self.app.state_backend.get_invocation(
                             invocation_id
